@@ -78,7 +78,7 @@ Qed.
    None value the text placed there evaluates back to exactly that value (finite floats: not modelled) *)
 Theorem site_value st :
   In st splice_sites -> s_kind st = KRepr \/ s_kind st = KAscii ->
-  s_types st <> [] /\ forallb literal_kind (s_types st) = true /\
+  s_types st <> [] /\ forallb literal_kind_sub (s_types st) = true /\
   forall v p rest, atom_ty v <> None -> wf_lit v -> oracle_ok p ->
     eval_lit (site_value_text (s_kind st) p v ++ codes (s_after st) ++ rest)
     = Some (v, codes (s_after st) ++ rest).
@@ -88,8 +88,8 @@ Proof.
   unfold site_ok in Hok. apply andb_true_iff in Hok. destruct Hok as [Hok Ht].
   apply andb_true_iff in Hok. destruct Hok as [Hok _].
   apply andb_true_iff in Hok. destruct Hok as [_ Ha].
-  unfold types_ok in Ht.
-  assert (Ht': s_types st <> [] /\ forallb literal_kind (s_types st) = true).
+  unfold types_ok, types_ok_gen in Ht.
+  assert (Ht': s_types st <> [] /\ forallb literal_kind_sub (s_types st) = true).
   { destruct Hk as [E|E]; rewrite E in Ht; apply andb_true_iff in Ht; destruct Ht as [Hn Hl];
       (split; [destruct (s_types st); [discriminate | discriminate] | exact Hl]). }
   destruct Ht' as [Hn Hl]. split; [exact Hn|]. split; [exact Hl|].
